@@ -3,9 +3,11 @@ mod c02;
 mod extract;
 mod c03;
 mod c14;
+mod c15;
 mod fault;
 mod plonkrun;
 mod rec;
+mod rels;
 mod shapes;
 mod util;
 
@@ -28,6 +30,7 @@ fn main() {
         "c02" => c02::main(rest),
         "c03" => c03::main(rest),
         "c14" => c14::main(rest),
+        "c15" => c15::main(rest),
         "randshape" => {
             let seed: u64 = rest[0].parse().unwrap();
             println!("{}", serde_json::to_string(&shapes::random_shape(seed)).unwrap());
